@@ -525,6 +525,7 @@ func authTable() []authRow {
 		{"nns", "renew", func(d *AuthGrid, w *World) []any { return []any{"uu.com", int64(2)} }, k("U"), ""},
 		{"nns", "setAdmin", func(d *AuthGrid, w *World) []any { return []any{"uu.com", d.x.Hash} }, k("U", "X"), ""},
 		{"nns", "transfer", func(d *AuthGrid, w *World) []any { return []any{d.x.Hash, "uu.com", nil} }, k("U"), ""},
+		{"nns", "transfer", func(d *AuthGrid, w *World) []any { return []any{d.u.Hash, "uu.com", nil} }, k("U"), ""}, // to the current owner itself
 		{"nns", "register", func(d *AuthGrid, w *World) []any {
 			return []any{"vv.com", d.u.Hash, "e@x.y", int64(1), int64(2), int64(100000), int64(4)}
 		}, k("U"), ""},
